@@ -23,6 +23,45 @@ _LINE_C = ['', ' c', ' /* not open', ' */', " don't", ' "', ' #define X 1', ' //
            '/', '*']
 
 
+# `#include H("f.h" )`: a macro-expanded #include operand that ends in white space is rejected by /repo 166dfacf
+# ("wrong #include", fixes/C09-9.patch); checks/c09.py measures it on the tree under test and sets this switch
+INCLUDE_TRAILING_WS_OK = False
+
+
+def well_formed(text, strict=False):
+    """translation phases 2-3 by hand: False when the text has an unterminated comment / string / character constant, a
+    stray quote (strict: or a backslash outside literals) after comment removal, or ends in backslash-new-line -- inputs whose
+    behaviour C11 leaves undefined (6.4p3, 5.1.1.2p2); used to keep the shrinker inside the property's quantifier"""
+    if text.endswith('\\\n') or (text and not text.endswith('\n')):
+        return False
+    t = text.replace('\\\n', '')
+    i, n = 0, len(t)
+    while i < n:
+        c = t[i]
+        if c == '/' and t[i + 1:i + 2] == '*':
+            j = t.find('*/', i + 2)
+            if j < 0:
+                return False
+            i = j + 2
+        elif c == '/' and t[i + 1:i + 2] == '/':
+            j = t.find('\n', i)
+            i = n if j < 0 else j
+        elif c in '"\'':
+            j = i + 1
+            while j < n and t[j] != c:
+                if t[j] == '\n':
+                    return False
+                j += 2 if t[j] == '\\' else 1
+            if j >= n:
+                return False
+            i = j + 1
+        elif c == '\\' and strict:
+            return False        # a pp-token of its own; next to # it can make an invalid string literal (6.10.3.2p2)
+        else:
+            i += 1
+    return True
+
+
 def block_comment(rng, multi, names=()):
     if multi:
         body = rng.choice(_BLOCK_N)
@@ -83,7 +122,12 @@ def decorate_line(rng, line, feats, names=(), p_ws=0.3, p_sep=0.06, p_tail=0.2):
     nt = 0                                  # tokens seen so far
     prev = None
 
+    def incl_guard(nxt):
+        return is_include and nxt == ')' and not INCLUDE_TRAILING_WS_OK
+
     def sep_ok(nxt):
+        if incl_guard(nxt):
+            return False
         # never glue `/` to a comment opener, never separate a #define's name from its `(`
         if prev is None:
             return True
@@ -100,7 +144,7 @@ def decorate_line(rng, line, feats, names=(), p_ws=0.3, p_sep=0.06, p_tail=0.2):
     while i < n:
         k, s = pieces[i]
         if k == 'w':
-            if prev is not None and i + 1 < n and rng.random() < p_ws:
+            if prev is not None and i + 1 < n and rng.random() < p_ws and not incl_guard(pieces[i + 1][1]):
                 v = ws_variant(rng, directive, feats, names, True)
                 if prev == '/' and v.startswith('/'):
                     v = ' ' + v
